@@ -12,6 +12,8 @@
 //   C id sx sy dx dy             new ConnRef(router, ConnEnd(s), ConnEnd(d), id)
 //   E id which x y               which 0: setSourceEndpoint, 1: setDestEndpoint
 //   O name v                     setRoutingOption: name in nudgeConnected | improveMoving | improveAddDel | unifying | touchingColinear
+//   F name v                     public Router member flag (router.h:411-424): name in InvisibilityGrph | UseLeesAlgorithm | RubberBandRouting |
+//                                IgnoreRegions | SelectiveReroute, v 0/1; given right after R, before any shape or connector exists
 //   J id x y fixed               new JunctionRef(router, Point(x,y), id); setPositionFixed(fixed)      (hyperedge scenes, C03)
 //   H id <end> <end>             new ConnRef between two ends, each "J jid" (ConnEnd(junction)) or "P x y" (ConnEnd(Point))
 //   P                            processTransaction(), then dump state
@@ -39,6 +41,7 @@
 #include <string>
 #include <iostream>
 #include <sstream>
+#include <stdexcept>
 #define private public
 #define protected public
 #include "libavoid/libavoid.h"
@@ -175,6 +178,13 @@ int main()
                         name == "improveAddDel" ? improveHyperedgeRoutesMovingAddingAndDeletingJunctions :
                         name == "unifying" ? performUnifyingNudgingPreprocessingStep : nudgeOrthogonalTouchingColinearSegments;
                     router->setRoutingOption(o, v != 0); }
+                else if (tag == "F") { std::string name; int v; std::cin >> name >> v;
+                    if (name == "InvisibilityGrph") router->InvisibilityGrph = (v != 0);
+                    else if (name == "UseLeesAlgorithm") router->UseLeesAlgorithm = (v != 0);
+                    else if (name == "RubberBandRouting") router->RubberBandRouting = (v != 0);
+                    else if (name == "IgnoreRegions") router->IgnoreRegions = (v != 0);
+                    else if (name == "SelectiveReroute") router->SelectiveReroute = (v != 0);
+                    else throw std::runtime_error("unknown router flag " + name); }
                 else if (tag == "J") { int id, fixed; double x, y; std::cin >> id >> x >> y >> fixed;
                     jn[id] = new JunctionRef(router, Point(x, y), id); jn[id]->setPositionFixed(fixed != 0); }
                 else if (tag == "H") { int id; std::cin >> id; ConnEnd a = readEnd(std::cin, jn); ConnEnd b = readEnd(std::cin, jn);
